@@ -37,10 +37,15 @@ KERNELS = {
     "_get_spans_for_2_fields_njit": {"owner": "C08", "mutated": [2]},        # returns a slice of the `spans` buffer it wrote
     "_get_spans_for_multi_fields_njit": {"owner": "C08", "mutated": [1]},
     "_get_spans_for_index_string_field": {"owner": "C08"},
+    "apply_spans_index_of_min_indexed": {"owner": "C08"},
+    "apply_spans_index_of_max_indexed": {"owner": "C08"},
+    "compare_arrays": {"owner": "C14"},                                        # `return` inside the loop
     "apply_filter_to_index_values": {"owner": "C09"},
     "apply_indices_to_index_values": {"owner": "C09"},
     "map_valid": {"owner": "C04"},
     "ordered_map_valid_partial": {"owner": "C04", "mutated": [5]},   # result_data is written in place
+    "ordered_map_valid_indexed_partial": {"owner": "C04", "mutated": [8, 9]},  # result_indices, result_values
+    "safe_map_values": {"owner": "C04"},
     "next_map_subchunk": {"owner": "C04"},
     "get_valid_value_extents": {"owner": "C04"},
     "generate_ordered_map_to_left_both_unique_partial": {"owner": "C03", "mutated": [2]},
@@ -54,9 +59,20 @@ KERNELS = {
     "generate_ordered_map_to_inner_right_unique_partial": {"owner": "C03", "mutated": [4, 5]},
     "generate_ordered_map_to_inner_both_unique_partial": {"owner": "C03", "mutated": [4, 5]},
     "compare_rows_for_journalling": {"owner": "C17", "mutated": [4]},          # returns None: the result is `to_keep`
+    "compare_indexed_rows_for_journalling": {"owner": "C17", "mutated": [6]},
+    "merge_journalled_entries": {"owner": "C17", "mutated": [5]},              # returns None: the result is `dest`
+    "merge_indexed_journalled_entries_count": {"owner": "C17"},
+    "merge_indexed_journalled_entries": {"owner": "C17", "mutated": [7, 8]},   # returns None: (dest_inds, dest_vals)
+    "_apply_spans_concat_2": {"owner": "C16", "mutated": [3, 4]},             # (s + 1, d_index_i, d_index_v), dest_index, dest_values
+    "categorical_transform": {"owner": "C06", "mutated": [0]},                 # returns None: the result is `chunk`
+    "leaky_categorical_transform": {"owner": "C06", "mutated": [0, 1, 2]},     # chunk, freetext_indices, freetext_values
+    "fixed_string_transform": {"owner": "C06", "mutated": [6]},                # returns None: the result is `memory`
     "generate_ordered_map_to_left_both_unique": {"owner": "C19", "mutated": [2]},
     "generate_ordered_map_to_left_right_unique": {"owner": "C19", "mutated": [2]},
     "ordered_inner_map_both_unique": {"owner": "C19", "mutated": [2, 3]},      # returns None
+    "ordered_inner_map_result_size": {"owner": "C19"},
+    "ordered_inner_map_left_unique": {"owner": "C19", "mutated": [2, 3]},      # returns None
+    "ordered_inner_map": {"owner": "C19", "mutated": [2, 3]},                  # returns None
 }
 C08_NOSRC = ("apply_spans_count", "apply_spans_index_of_first", "apply_spans_index_of_last")
 C08_REDUCE = ("apply_spans_count", "apply_spans_first", "apply_spans_last", "apply_spans_max", "apply_spans_min",
@@ -115,6 +131,13 @@ def merge_safe(s0, s1):
     return not s1 or not s0 or (max(s1) >= max(s0) and all(a <= b for a, b in zip(s1, s1[1:])))
 
 
+def indexed_minmax_safe(sp, idx, vals):
+    """every subscript of apply_spans_index_of_{min,max}_indexed is in range: spans address rows, offsets address values"""
+    nrows = len(idx) - 1
+    return len(sp) >= 1 and all(0 <= a < b <= nrows for a, b in zip(sp, sp[1:])) and \
+        all(0 <= a <= len(vals) for a in idx)
+
+
 def _int_col(col):
     return col is not None and col.get("kind") == "numeric" and col.get("dtype", "int64") in ("int64", "int32") and \
         ints_only(col["data"])
@@ -146,6 +169,16 @@ def derive_c08(case):
                      fuel=len(s1) + 1, _from="C08")
     if case.get("op") != "apply" or case.get("level") != "ops":
         return None
+    if case["fn"] in ("index_of_min_indexed", "index_of_max_indexed") and case.get("col", {}).get("kind") == "indexed":
+        idx, vals = [0], []
+        for st in case["col"]["data"]:
+            vals.extend(st.encode("latin-1"))
+            idx.append(len(vals))
+        if not case["col"]["data"] and case["col"].get("noidx", True):
+            idx = []
+        sp = case["spans"]
+        return gcase("apply_spans_" + case["fn"], [arr(sp), arr(idx), arr(vals), NONE],
+                     unsafe=not indexed_minmax_safe(sp, idx, vals), _from="C08")
     k = C08_FN.get(case["fn"])
     if k not in KERNELS:
         return None
@@ -208,6 +241,31 @@ def random_c08(rng, n_cases):
             elif what == 2:
                 vals = vals[:rng.randrange(0, len(vals) + 1)]
             out.append(gcase(k, [arr(idx), arr(vals)], _from="random"))
+            continue
+        if k in ("apply_spans_index_of_min_indexed", "apply_spans_index_of_max_indexed"):
+            n = rng.choice([0, 1, 2, 3, rng.randrange(1, 12)])
+            strs = [[rng.choice([97, 98, 32]) for _ in range(rng.choice([0, 1, 1, 2, 3]))] for _ in range(n)]
+            strs = [strs[i - 1] if i and rng.random() < 0.3 else strs[i] for i in range(n)]
+            idx = [0]
+            for st in strs:
+                idx.append(idx[-1] + len(st))
+            vals = [c for st in strs for c in st]
+            what = rng.randrange(10)
+            if what == 0 and n >= 2:
+                j = rng.randrange(1, n)              # offsets that decrease somewhere (rows of negative "length")
+                idx[j] = rng.randrange(0, len(vals) + 1)
+            elif what == 1:
+                vals = vals[:rng.randrange(0, len(vals) + 1)]
+            what = rng.randrange(10)
+            if what < 7:
+                sp = [0] + [i for i in range(1, n) if rng.random() < rng.choice([0.1, 0.5, 0.9])] + ([n] if n else [])
+            elif what < 9:
+                sp = sorted(rng.randrange(0, n + 1) for _ in range(rng.randrange(0, 6)))
+            else:
+                sp = [rng.randrange(-2, n + 3) for _ in range(rng.randrange(0, 5))]
+            dest = NONE if rng.random() < 0.8 or not sp else arr([9] * (len(sp) - 1))
+            out.append(gcase(k, [arr(sp), arr(idx), arr(vals), dest], unsafe=not indexed_minmax_safe(sp, idx, vals),
+                             _from="random"))
             continue
         if k == "_get_spans_for_2_fields_by_spans":
             n = rng.randrange(0, 30)
@@ -312,14 +370,98 @@ def derive_c04(case):
     return None
 
 
+def indexed_partial_safe(m, sm_end, indices, i_start, i_max, values, mv_start, cap_i, cap_v, inv, sm, ri, rv):
+    """every subscript of ordered_map_valid_indexed_partial is in range (a negative one within -len..-1 wraps, still in range)"""
+    if not _inr(i_start, len(indices)):
+        return False
+    v_off = indices[i_start]
+    while sm < sm_end:
+        if not _inr(sm, len(m)):
+            return False
+        if m[sm] == inv:
+            if not _inr(ri, cap_i):
+                return False
+        else:
+            i = m[sm] - mv_start
+            if i >= i_max:
+                return True
+            if not (_inr(i, len(indices)) and _inr(i + 1, len(indices))):
+                return False
+            v_start, v_end = indices[i] - v_off, indices[i + 1] - v_off
+            if rv + v_end - v_start > cap_v:
+                return True
+            for v in range(v_start, v_end):
+                if not (_inr(v, len(values)) and _inr(rv, cap_v)):
+                    return False
+                rv += 1
+            if not _inr(ri, cap_i):
+                return False
+        sm += 1
+        ri += 1
+    return True
+
+
+def random_c04_indexed(rng):
+    inv = rng.choice([-1, -1, 4611686018427387904])
+    nrows = rng.randrange(1, 8)
+    lens = [rng.choice([0, 1, 1, 2, 4]) for _ in range(nrows)]
+    base = rng.randrange(0, 5)                                 # the offsets window does not start at 0
+    indices = [base]
+    for ln in lens:
+        indices.append(indices[-1] + ln)
+    i_start = rng.randrange(0, nrows)
+    i_max = rng.randrange(i_start + 1, nrows + 1)
+    values = [rng.randrange(1, 200) for _ in range(indices[i_max] - indices[i_start] + rng.choice([0, 0, 2]))]
+    mv_start = rng.randrange(0, 30)
+    n = rng.randrange(0, 8)
+    m = sorted(mv_start + rng.randrange(i_start, min(nrows, i_max + 1)) for _ in range(n))
+    m = [inv if rng.random() < 0.25 else k for k in m]
+    what = rng.randrange(12)
+    if what == 0:
+        m = [inv if k == inv else k - rng.randrange(0, 3) for k in m]          # entries below the window
+    elif what == 1:
+        values = values[:rng.randrange(0, len(values) + 1)]
+    sm = rng.randrange(0, n + 1)
+    sm_end = n if rng.random() < 0.8 else rng.randrange(sm, n + 2)
+    cap_i = rng.choice([n + 1, n + 1, max(n - 1, 0), 2])
+    cap_v = rng.choice([0, 1, 3, 8, 64])
+    ri = 0 if rng.random() < 0.7 else rng.randrange(0, cap_i + 1)
+    rv = 0 if rng.random() < 0.7 else rng.randrange(0, cap_v + 1)
+    acc = rng.randrange(0, 50)
+    I = lambda v: {"int": int(v)}                     # noqa: E731,E741
+    return gcase("ordered_map_valid_indexed_partial",
+                 [arr(m), I(0), I(sm_end), arr(indices), I(i_start), I(i_max), arr(values), I(mv_start), arr([5] * cap_i),
+                  arr([6] * cap_v), I(inv), I(sm), I(ri), I(rv), I(acc)],
+                 unsafe=not indexed_partial_safe(m, sm_end, indices, i_start, i_max, values, mv_start, cap_i, cap_v, inv, sm, ri, rv),
+                 fuel=n + 4, _from="random")
+
+
+def random_c04_safe_map(rng):
+    nsrc = rng.choice([0, 1, 2, 5, rng.randrange(1, 20)])
+    n = rng.choice([0, 1, 2, 3, rng.randrange(1, 15)])
+    src = [rng.randrange(-50, 1000) for _ in range(nsrc)]
+    bad = rng.random() < 0.15
+    m = [rng.randrange(-nsrc if bad else 0, nsrc + (2 if bad else 0)) if nsrc else rng.choice([0, -1]) for _ in range(n)]
+    filt = [rng.random() < 0.6 and nsrc > 0 for _ in range(n if rng.random() < 0.9 else rng.randrange(0, n + 1))]
+    safe = len(filt) >= n and all((not filt[i]) or -nsrc <= m[i] < nsrc for i in range(n))
+    empty = NONE if rng.random() < 0.5 else {"int": rng.choice([0, -1, 7])}
+    return gcase("safe_map_values", [arr(src), arr(m), barr(filt), empty], unsafe=not safe, _from="random")
+
+
 def random_c04(rng, n_cases):
     out = []
     for t in range(n_cases):
+        if t % 6 == 5:
+            out.append(random_c04_safe_map(rng))
+            continue
+        if t % 6 == 4:
+            out.append(random_c04_indexed(rng))
+            continue
         inv = rng.choice([-1, -1, 2147483647, 4611686018427387904])
         nsrc = rng.choice([0, 1, 2, 5, rng.randrange(1, 30)])
         n = rng.choice([0, 1, 2, 3, rng.randrange(1, 25)])
         src = [rng.randrange(-50, 1000) for _ in range(nsrc)]
-        what = t % 4
+        what = t % 6
         if what == 0:
             bad = rng.random() < 0.15
             m = [inv if rng.random() < 0.3 or nsrc == 0 else rng.randrange(-nsrc if bad else 0, nsrc + (2 if bad else 0))
@@ -473,9 +615,178 @@ def compare_rows_safe(om, nm, oldf, newf, tk):
     return True
 
 
+def _inr(k, n):
+    """is `a[k]` in range for len(a) == n (a negative subscript within -n..-1 wraps, still in range)"""
+    return -n <= k < n
+
+
+def merge_safe_run(om, nm, tk, old_n, new_n, cap, offsets):
+    """every subscript of merge_journalled_entries (offsets=False: old_n / new_n rows, `cap` destination slots) resp.
+    merge_indexed_journalled_entries_count (offsets=True: old_n / new_n offset entries) is in range"""
+    cur_old = cur_dest = 0
+    for i in range(len(om)):
+        while cur_old <= om[i]:
+            if not _inr(cur_old + (1 if offsets else 0), old_n) or not _inr(cur_old, old_n):
+                return False
+            if not offsets and not _inr(cur_dest, cap):
+                return False
+            cur_old += 1
+            cur_dest += 1
+        if i >= len(tk):
+            return False
+        if tk[i]:
+            if i >= len(nm) or not _inr(nm[i], new_n) or (offsets and not _inr(nm[i] + 1, new_n)):
+                return False
+            if not offsets and not _inr(cur_dest, cap):
+                return False
+            cur_dest += 1
+    return True
+
+
+def _journal_maps(rng):
+    """journalling maps as ordered_generate_journalling_indices produces them, plus keep flags"""
+    no, nn = rng.randrange(0, 8), rng.randrange(0, 6)
+    okeys = sorted(rng.randrange(0, 6) for _ in range(no))
+    nkeys = sorted(rng.sample(range(0, 8), nn))
+    om, nm = [], []
+    for k in sorted(set(okeys) | set(nkeys)):
+        om.append(max((i for i, x in enumerate(okeys) if x == k), default=-1))
+        nm.append(nkeys.index(k) if k in nkeys else -1)
+    tk = [n != -1 and (o == -1 or rng.random() < 0.5) for o, n in zip(om, nm)]
+    return no, nn, om, nm, tk
+
+
+def random_c17_merge(rng, t):
+    no, nn, om, nm, tk = _journal_maps(rng)
+    what = rng.randrange(10)
+    if what == 0:                                       # anything: entries beyond the tables, keep flags without a snapshot row
+        om = [rng.randrange(-1, no + 2) for _ in om]
+        nm = [rng.randrange(-2, nn + 2) for _ in nm]
+        tk = [rng.random() < 0.5 for _ in tk]
+    elif what == 1 and om:
+        nm = nm[:rng.randrange(0, len(nm) + 1)]
+        tk = tk[:rng.randrange(0, len(tk) + 1)]
+    if t % 2 == 0:
+        cap = no + sum(tk) + rng.choice([0, 0, 0, 0, 1, 3, -1])
+        cap = max(cap, 0)
+        old_src = [rng.randrange(-5, 50) for _ in range(no)]
+        new_src = [rng.randrange(50, 99) for _ in range(nn)]
+        return gcase("merge_journalled_entries", [arr(om), arr(nm), barr(tk), arr(old_src), arr(new_src), arr([0] * cap)],
+                     unsafe=not merge_safe_run(om, nm, tk, no, nn, cap, False), fuel=cap + no + 4, _from="random")
+    oi, ni = [0], [0]
+    for _ in range(no):
+        oi.append(oi[-1] + rng.choice([0, 1, 1, 2, 5]))
+    for _ in range(nn):
+        ni.append(ni[-1] + rng.choice([0, 1, 1, 2, 5]))
+    if rng.random() < 0.1:
+        oi = oi[:-1]
+    return gcase("merge_indexed_journalled_entries_count", [arr(om), arr(nm), barr(tk), arr(oi), arr(ni)],
+                 unsafe=not merge_safe_run(om, nm, tk, len(oi), len(ni), 0, True), fuel=len(oi) + 4, _from="random")
+
+
+def compare_indexed_safe(om, nm, oi, ov, ni, nv, tk):
+    """the assertions can be evaluated and, when they pass, every subscript is in range"""
+    if not oi or not ni:
+        return False
+    if len(om) != len(nm) or oi[-1] != len(ov) or ni[-1] != len(nv):
+        return True                                    # AssertionError before any other subscript
+    if len(tk) < len(om):
+        return False
+    for i, o in enumerate(om):
+        if tk[i] or o == -1 or nm[i] == -1:
+            continue
+        if not (_inr(o, len(oi)) and _inr(o + 1, len(oi)) and _inr(nm[i], len(ni)) and _inr(nm[i] + 1, len(ni))):
+            return False
+    return True
+
+
+def random_c17_indexed(rng):
+    no, nn, om, nm, _ = _journal_maps(rng)
+    mk = lambda k: [[rng.choice([97, 98])] * rng.choice([0, 1, 1, 2]) for _ in range(k)]      # noqa: E731
+    orows, nrows = mk(no), mk(nn)
+    oi, ni = [0], [0]
+    for r in orows:
+        oi.append(oi[-1] + len(r))
+    for r in nrows:
+        ni.append(ni[-1] + len(r))
+    ov, nv = [c for r in orows for c in r], [c for r in nrows for c in r]
+    what = rng.randrange(12)
+    if what == 0:
+        om = [rng.randrange(-1, no + 2) for _ in om]
+        nm = [rng.randrange(-2, nn + 2) for _ in nm]
+    elif what == 1:
+        nm = nm[:-1] if nm else [0]                    # assert len(old_map) == len(new_map)
+    elif what == 2:
+        ov = ov + [97]                                 # assert old_indices[-1] == len(old_values)
+    elif what == 3:
+        nv = nv[:-1] if nv else [98]
+    elif what == 4:
+        oi = []
+    tk = [rng.random() < 0.3 for _ in range(len(om) if rng.random() < 0.9 else rng.randrange(0, len(om) + 1))]
+    return gcase("compare_indexed_rows_for_journalling", [arr(om), arr(nm), arr(oi), arr(ov), arr(ni), arr(nv), barr(tk)],
+                 unsafe=not compare_indexed_safe(om, nm, oi, ov, ni, nv, tk), _from="random")
+
+
+def merge_indexed_safe(om, nm, tk, oi, ni, capI):
+    """every scalar subscript of merge_indexed_journalled_entries is in range (slices never raise IndexError)"""
+    if capI < 1:
+        return False
+    cur_old, cur_dest = 0, 1
+    for i in range(len(om)):
+        while cur_old <= om[i]:
+            if not (_inr(cur_old + 1, len(oi)) and _inr(cur_old, len(oi)) and _inr(cur_dest, capI)):
+                return False
+            cur_old += 1
+            cur_dest += 1
+        if i >= len(tk):
+            return False
+        if tk[i]:
+            if i >= len(nm) or not (_inr(nm[i] + 1, len(ni)) and _inr(nm[i], len(ni)) and _inr(cur_dest, capI)):
+                return False
+            cur_dest += 1
+    return True
+
+
+def random_c17_merge_indexed(rng):
+    no, nn, om, nm, tk = _journal_maps(rng)
+    mk = lambda k: [[rng.randrange(1, 9)] * rng.choice([0, 1, 1, 2]) for _ in range(k)]      # noqa: E731
+    orows, nrows = mk(no), mk(nn)
+    oi, ni = [0], [0]
+    for r in orows:
+        oi.append(oi[-1] + len(r))
+    for r in nrows:
+        ni.append(ni[-1] + len(r))
+    ov, nv = [c for r in orows for c in r], [c for r in nrows for c in r]
+    what = rng.randrange(12)
+    if what == 0:
+        om = [rng.randrange(-1, no + 2) for _ in om]
+        nm = [rng.randrange(-2, nn + 2) for _ in nm]
+        tk = [rng.random() < 0.5 for _ in tk]
+    elif what == 1:
+        ov = ov[:rng.randrange(0, len(ov) + 1)]            # values shorter than the offsets say: a slice of the wrong size
+    elif what == 2 and len(oi) > 1:
+        oi = oi[:-1]
+    capI = no + sum(tk) + 1 + rng.choice([0, 0, 0, 0, 1, -1])
+    capV = len(ov) + sum(len(nrows[n]) for n, k in zip(nm, tk) if k and 0 <= n < nn) + rng.choice([0, 0, 0, 2, -1])
+    capI, capV = max(capI, 0), max(capV, 0)
+    return gcase("merge_indexed_journalled_entries",
+                 [arr(om), arr(nm), barr(tk), arr(oi), arr(ov), arr(ni), arr(nv), arr([0] * capI), arr([0] * capV)],
+                 unsafe=not merge_indexed_safe(om, nm, tk, oi, ni, capI), fuel=len(oi) + no + 4, _from="random")
+
+
 def random_c17(rng, n_cases):
     out = []
     for t in range(n_cases):
+        kind = t % 5
+        if kind == 4:
+            out.append(random_c17_merge_indexed(rng))
+            continue
+        if kind == 3:
+            out.append(random_c17_indexed(rng))
+            continue
+        if kind in (1, 2):
+            out.append(random_c17_merge(rng, kind))
+            continue
         no, nn = rng.randrange(0, 8), rng.randrange(0, 8)
         n = rng.randrange(0, 10)
         oldf = [rng.randrange(0, 4) for _ in range(no)]
@@ -491,11 +802,266 @@ def random_c17(rng, n_cases):
     return out
 
 
+# ----------------------------------------------------------------------------------------------------------------------
+# C06: categorical_transform on staging arrays as the CSV reader fills them (2-D `column_inds`, flat `column_vals`)
+# ----------------------------------------------------------------------------------------------------------------------
+
+def categorical_safe(chunk_n, ic, cinds, vals, coffs, keys, index, values):
+    """every subscript the kernel makes is in range (a negative one within -len..-1 wraps, still in range)"""
+    if not _inr(ic, len(coffs)) or not _inr(ic, len(cinds)):
+        return False
+    off, row = coffs[ic], cinds[ic]
+    for r in range(len(row) - 1):
+        if r >= chunk_n:
+            break
+        ks, kl = row[r], row[r + 1] - row[r]
+        for i in range(len(index) - 1):
+            if kl != index[i + 1] - index[i]:
+                continue
+            found = i
+            for j in range(kl):
+                a, b = off + ks + j, index[i] + j
+                if not (_inr(a, len(vals)) and _inr(b, len(keys))):
+                    return False
+                if vals[a] != keys[b]:
+                    found = -1
+                    break
+            if found != -1 and not _inr(found, len(values)):
+                return False
+    return True
+
+
+def fixed_string_safe(cinds, vals, coffs, ic, rows, strlen, nmem):
+    if not _inr(ic, len(coffs)):
+        return False
+    if rows > 0 and not _inr(ic, len(cinds)):
+        return False
+    for r in range(rows):
+        row = cinds[ic]
+        if not (_inr(r, len(row)) and _inr(r + 1, len(row))):
+            return False
+        a = r * strlen
+        start = row[r] + coffs[ic]
+        end = min(row[r + 1] + coffs[ic], start + strlen)
+        for c in range(start, end):
+            if not (_inr(c, len(vals)) and _inr(a, nmem)):
+                return False
+            a += 1
+    return True
+
+
+def random_c06(rng, n_cases):
+    out = []
+    words = [b"", b"a", b"b", b"ab", b"abc", b"ba", b"yes", b"no", b"a ", b"n"]
+    for t in range(n_cases):
+        ncols = rng.randrange(1, 4)
+        nrows = rng.choice([0, 1, 2, 3, rng.randrange(1, 8)])
+        cats = sorted(set(rng.sample(words, rng.randrange(0, 5))))
+        keys = [c for w in cats for c in w]
+        index = [0]
+        for w in cats:
+            index.append(index[-1] + len(w))
+        values = [rng.randrange(-3, 100) for _ in cats]
+        cinds, vals, coffs = [], [], [0]
+        for c in range(ncols):
+            row, buf = [0], []
+            for _ in range(nrows):
+                w = rng.choice(cats) if cats and rng.random() < 0.6 else rng.choice(words)
+                buf.extend(w)
+                row.append(len(buf))
+            stale = rng.randrange(0, 3)                         # stale entries after the rows written in this call
+            cinds.append(row + [rng.randrange(0, 5) for _ in range(stale)])
+            vals.extend(buf + [88] * rng.randrange(0, 3))
+            coffs.append(len(vals))
+        width = max(len(r) for r in cinds)
+        cinds = [r + [0] * (width - len(r)) for r in cinds]
+        ic = rng.randrange(0, ncols)
+        what = rng.randrange(12)
+        if what == 0:
+            ic = ncols + rng.randrange(0, 2)                    # the column subscript beyond the staging arrays
+        elif what == 1 and index:
+            index = index[:-1] + [index[-1] + 2]                # a table whose last key runs past `cat_keys`
+        elif what == 2:
+            vals = vals[:rng.randrange(0, len(vals) + 1)]
+        elif what == 3:
+            values = values[:-1]
+        chunk_n = nrows if rng.random() < 0.8 else rng.randrange(0, nrows + 2)
+        if t % 3 == 2:
+            strlen = rng.choice([0, 1, 2, 3, 5])
+            rows = chunk_n
+            nmem = rows * strlen if rng.random() < 0.9 else rng.randrange(0, rows * strlen + 2)
+            bvals = [v if rng.random() < 0.8 else rng.randrange(128, 256) for v in vals]      # bytes above 127: np.int8 wraps
+            out.append(gcase("fixed_string_transform",
+                             [arr2(cinds), arr(bvals), arr(coffs), {"int": ic}, {"int": rows}, {"int": strlen}, arr([0] * nmem)],
+                             unsafe=not fixed_string_safe(cinds, bvals, coffs, ic, rows, strlen, nmem), _from="random"))
+            continue
+        if t % 3 == 1:
+            nidx = chunk_n + 1 if rng.random() < 0.9 else rng.randrange(0, chunk_n + 2)
+            cap = coffs[ic + 1] - coffs[ic] if ic < ncols else 3
+            nval = cap if rng.random() < 0.9 else rng.randrange(0, cap + 1)
+            safe = categorical_safe(chunk_n, ic, cinds, vals, coffs, keys, index, values) and \
+                min(chunk_n, len(cinds[ic]) - 1 if ic < ncols else 0) < nidx
+            out.append(gcase("leaky_categorical_transform",
+                             [arr([0] * chunk_n), arr([0] * nidx), arr([0] * nval), {"int": ic}, arr2(cinds), arr(vals),
+                              arr(coffs), arr(keys), arr(index), arr(values)], unsafe=not safe, _from="random"))
+            continue
+        out.append(gcase("categorical_transform",
+                         [arr([0] * chunk_n), {"int": ic}, arr2(cinds), arr(vals), arr(coffs), arr(keys), arr(index), arr(values)],
+                         unsafe=not categorical_safe(chunk_n, ic, cinds, vals, coffs, keys, index, values), _from="random"))
+    return out
+
+
+# ----------------------------------------------------------------------------------------------------------------------
+# C16: _apply_spans_concat_2 on the (offsets, bytes) arrays of a column, reusable destination buffers
+# ----------------------------------------------------------------------------------------------------------------------
+
+def concat_safe(spans, idx, vals, cap_i, cap_v, max_i, max_v, sep, dlm, sp_start):
+    """every subscript of _apply_spans_concat_2 is in range, and the loop runs at least once (else it reads the unbound `s`)"""
+    d_i, d_v = (1, 0) if sp_start == 0 else (0, 0)
+    sp_end = len(spans) - 1
+    if sp_start >= sp_end or sp_start < 0:
+        return False
+    ok = lambda a, n: 0 <= a < n                      # noqa: E731  (no negative subscripts in the safe stream)
+
+    def emit_row(a, b, delta):
+        flag = False
+        for i in range(a, b):
+            if not ok(i, len(vals)):
+                return None
+            flag = flag or vals[i] in (sep, dlm)
+        n = (2 if flag else 0) + sum(2 if vals[i] == dlm else 1 for i in range(a, b))
+        if n and not ok(d_v + delta + n - 1, cap_v):
+            return None
+        return delta + n
+    for s in range(sp_start, sp_end):
+        if not (ok(s + 1, len(spans)) and ok(spans[s], len(idx)) and ok(spans[s + 1], len(idx))):
+            return False
+        cur, nxt = spans[s], spans[s + 1]
+        a, b = idx[cur], idx[nxt]
+        ne = 0
+        if nxt - cur == 1:
+            ne = 1 if b - a > 0 else 0
+        elif nxt - cur > 1:
+            for e in range(cur, nxt):
+                if not ok(e + 1, len(idx)):
+                    return False
+                ne += idx[e + 1] - idx[e] > 0
+        delta = 0
+        if ne == 1:
+            delta = emit_row(a, b, 0)
+            if delta is None:
+                return False
+        elif ne > 1:
+            prev_empty = True
+            for e in range(cur, nxt):
+                x, y = idx[e], idx[e + 1]
+                if not prev_empty and y != x and e > cur:
+                    if not ok(d_v + delta, cap_v):
+                        return False
+                    delta += 1
+                prev_empty = prev_empty and y == x
+                delta = emit_row(x, y, delta)
+                if delta is None:
+                    return False
+        d_v += delta
+        if not ok(d_i, cap_i):
+            return False
+        d_i += 1
+        if d_i >= max_i or d_v >= max_v:
+            break
+    return True
+
+
+def concat_gcase(spans, idx, vals, cap_i, cap_v, max_i, max_v, sp_start, dest_start_v, index0, frm):
+    I = lambda v: {"int": int(v)}                     # noqa: E731,E741
+    return gcase("_apply_spans_concat_2",
+                 [arr(spans), arr(idx), arr(vals), arr([index0] * cap_i), arr([0] * cap_v), I(max_i), I(max_v), I(44), I(34),
+                  I(sp_start), I(dest_start_v)],
+                 unsafe=not concat_safe(spans, idx, vals, cap_i, cap_v, max_i, max_v, 44, 34, sp_start), _from=frm)
+
+
+def derive_c16(case):
+    if case.get("op") != "concat_kernel":
+        return None
+    idx, vals = [0], []
+    for st in case["strs"]:
+        vals.extend(st.encode("utf-8"))
+        idx.append(len(vals))
+    return concat_gcase(case["spans"], idx, vals, case["cap_i"], case["cap_v"], case["max_i"], case["max_v"], case["sp_start"],
+                        case["dest_start_v"], case["index0"], "C16")
+
+
+def random_c16(rng, n_cases):
+    out = []
+    words = [b"", b"", b"a", b"b,c", b'd"e', b'"', b",", b"xy", b'""', b"a,\"b"]
+    for t in range(n_cases):
+        n = rng.randrange(0, 9)
+        rows = [rng.choice(words) for _ in range(n)]
+        idx, vals = [0], []
+        for r in rows:
+            vals.extend(r)
+            idx.append(len(vals))
+        what = rng.randrange(12)
+        if what < 8:
+            cuts = sorted(rng.sample(range(1, n), rng.randrange(0, n))) if n > 1 else []
+            spans = [0] + cuts + ([n] if n else [])
+        elif what < 10:
+            spans = sorted(rng.randrange(0, n + 1) for _ in range(rng.randrange(0, n + 3)))          # empty spans
+        else:
+            spans = [rng.randrange(0, n + 2) for _ in range(rng.randrange(0, 6))]                     # inverted / beyond
+        m = 2 * len(vals) + 3 * n + 2
+        sp_start = rng.randrange(0, max(len(spans) - 1, 1)) if rng.random() < 0.9 else len(spans)
+        max_i = rng.randrange(1, 6)
+        cap_i = max_i + rng.randrange(0, 3) if rng.random() < 0.9 else rng.randrange(0, max_i + 1)
+        max_v = rng.randrange(0, m + 2)
+        cap_v = max_v + m if rng.random() < 0.85 else rng.randrange(0, m + 1)
+        if what == 11:
+            vals = vals[:rng.randrange(0, len(vals) + 1)]
+        out.append(concat_gcase(spans, idx, vals, cap_i, cap_v, max_i, max_v, sp_start, rng.choice([0, 0, 1, 7, 1000]),
+                                rng.choice([0, 0, 5]), "random"))
+    return out
+
+
 def random_c19(rng, n_cases):
     out = []
     for t in range(n_cases):
         nl, nr = rng.randrange(0, 12), rng.randrange(0, 12)
-        if t % 3 == 2:
+        if t % 6 in (4, 5):
+            lu = t % 6 == 4
+            left, right = _sorted_keys(rng, nl, lu), _sorted_keys(rng, nr, False)
+            if rng.random() < 0.1:
+                left = [rng.randrange(0, 4) for _ in range(nl)]           # not sorted / not unique: subscripts still guarded
+            # the number of pairs the kernel writes (its own control flow on these arrays)
+            i = j = pairs = 0
+            while i < len(left) and j < len(right):
+                if left[i] < right[j]:
+                    i += 1
+                elif left[i] > right[j]:
+                    j += 1
+                else:
+                    ci, cj = i, j
+                    if not lu:
+                        while ci + 1 < len(left) and left[ci + 1] == left[ci]:
+                            ci += 1
+                    while cj + 1 < len(right) and right[cj + 1] == right[cj]:
+                        cj += 1
+                    pairs += (ci - i + 1) * (cj - j + 1)
+                    i, j = ci + 1, cj + 1
+            cl, cr = (pairs + rng.randrange(0, 3) for _ in range(2))
+            short = rng.random() < 0.1 and pairs > 0
+            if short:
+                cl = rng.randrange(0, pairs)
+            out.append(gcase("ordered_inner_map_left_unique" if lu else "ordered_inner_map",
+                             [arr(left), arr(right), arr([7] * cl), arr([8] * cr)], unsafe=short, fuel=nl + nr + 1, _from="random"))
+            continue
+        if t % 6 == 3:
+            # every subscript is guarded by a length test: no call is `_unsafe`, sorted or not
+            left, right = _sorted_keys(rng, nl, False), _sorted_keys(rng, nr, False)
+            if rng.random() < 0.15:
+                left = [rng.randrange(-3, 4) for _ in range(nl)]
+            out.append(gcase("ordered_inner_map_result_size", [arr(left), arr(right)], fuel=nl + nr + 1, _from="random"))
+            continue
+        if t % 6 == 2:
             left, right = _sorted_keys(rng, nl, True), _sorted_keys(rng, nr, True)
             if rng.random() < 0.1:
                 right = [rng.randrange(0, 6) for _ in range(nr)]
@@ -507,7 +1073,7 @@ def random_c19(rng, n_cases):
             out.append(gcase("ordered_inner_map_both_unique", [arr(left), arr(right), arr([7] * cl), arr([8] * cr)],
                              unsafe=short or len(set(right)) != len(right), fuel=nl + nr + 1, _from="random"))
             continue
-        bu = t % 3 == 0
+        bu = t % 6 == 0
         first = _sorted_keys(rng, nl, bu)
         second = _sorted_keys(rng, nr, True)
         if rng.random() < 0.1:                       # keys that are not sorted / not unique: every subscript is still guarded
@@ -519,8 +1085,24 @@ def random_c19(rng, n_cases):
     return out
 
 
-DERIVE = {"C08": derive_c08, "C09": derive_c09, "C04": derive_c04}
-RANDOM = {"C08": random_c08, "C09": random_c09, "C04": random_c04, "C03": random_c03, "C17": random_c17, "C19": random_c19}
+def derive_c14(case):
+    if case.get("op") != "compare_arrays":
+        return None
+    return gcase("compare_arrays", [arr(bytes.fromhex(case["a"])), arr(bytes.fromhex(case["b"]))], _from="C14")
+
+
+def random_c14(rng, n_cases):
+    out = []
+    for t in range(n_cases):
+        a = [rng.choice([0, 1, 97, 98, 255]) for _ in range(rng.randrange(0, 6))]
+        b = list(a[:rng.randrange(0, len(a) + 1)]) + [rng.choice([0, 97, 98, 255]) for _ in range(rng.randrange(0, 3))] \
+            if rng.random() < 0.6 else [rng.choice([0, 1, 97, 98, 255]) for _ in range(rng.randrange(0, 6))]
+        out.append(gcase("compare_arrays", [arr(a), arr(b)], _from="random"))       # every subscript is below both lengths
+    return out
+
+
+DERIVE = {"C14": derive_c14, "C08": derive_c08, "C09": derive_c09, "C04": derive_c04, "C16": derive_c16}
+RANDOM = {"C14": random_c14, "C06": random_c06, "C16": random_c16, "C08": random_c08, "C09": random_c09, "C04": random_c04, "C03": random_c03, "C17": random_c17, "C19": random_c19}
 
 
 def extra_cases(owner, cases, tier, rng):
